@@ -3,24 +3,22 @@ import GrafeoModel.Model.Plan
 /-!
 # C09 — the optimizer never changes a query's answer
 
-Theorems about `Model/Plan.lean`, the transliteration of `optimizer/mod.rs` **after the repair of
-`try_push_filter_into`** (subquery test, `passes_through` for Project and Return, "bound below" for
-Expand, "all variables on one side" and join type for Join, chained scans visited by
-`collect_output_variables`):
+Theorems about `Model/Plan.lean`, the transliteration of `optimizer/mod.rs` after the four repairs
+of filter push-down (guards of `try_push_filter_into`: subquery test, `passes_through` incl.
+`unnamed`, "bound below" for Expand, "all variables on one side" + join type + `outputs_known` for
+Join; `collect_output_variables`: chained scans, projections, semi/anti joins, aggregates):
 
+* `noOver_all` (full): every variable `collect_output_variables` reports is a column — all plans.
 * `pushFilters_sound` (partial): for every environment (graph + interpretation of every
   uninterpreted symbol) and every plan satisfying the decidable residual condition `wfPush`, filter
-  push-down returns the **same row list** (same rows, same multiplicities, same order). Subqueries
-  and join types are no longer hypotheses. What `wfPush` still states is what the guards cannot
-  see because `collect_output_variables` is not the column list: it over-reports through `Project`
-  (dropped variables), `Aggregate` and semi/anti joins, and under-reports `Return` aliases, path
-  length columns, generated column names and every operator it does not know.
-* `wfPush_of_wfScope`, `pushFilters_sound_of_wfScope`: a plan-wide sufficient condition.
-* `wRebind_witness` (the plan of an accepted Cypher text; reproduced on the real engine),
-  `wNameClash_witness`, `wStar_witness`, `wJoinUnder_witness`, `wJoinOver_witness`: the residual
-  condition cannot be dropped; `pushFilters_sound_full_refuted`.
-* `w…_regression`: on every defect of the guards before the repair the old rewrite
-  (`pushFiltersOld`) changes the rows and the repaired one does not.
+  push-down returns the **same row list**. Subqueries, join types, unknown operators, over-report
+  and generated column names in projection lists are no longer hypotheses.
+* `wfPush_of_wfScope`, `pushFilters_sound_of_wfScope`: the plan-wide form of what remains — no `*`
+  item; at a join the left input has no unreported column, or the inputs share no column name.
+* `wJoinUnder_witness` (the plan of an accepted GQL text), `wStar_witness`: neither can be dropped;
+  `pushFilters_sound_full_refuted`.
+* `w…_regression`: every defect found in the earlier rounds, on the old rewrite (`pushFiltersOld`)
+  where it is kept, and on the repaired one.
 * `pushProjections_id`, `pushProjections_sound` (full): projection push-down as coded is the
   identity on plans.
 * `joinTree_sound` / `joinCheck_sound`: any reordering of an inner/cross join tree that the checker
@@ -432,8 +430,8 @@ theorem cols_pushFilters : ∀ p : Plan, cols (pushFilters p) = cols p := by
 theorem outVars_tryPushGo (pred : Expr) : ∀ p : Plan, outVars (tryPushGo pred p) = outVars p := by
   intro p
   induction p with
-  | project items i ih => simp only [tryPushGo]; split <;> simp [outVars, ih]
-  | ret d items i ih => simp only [tryPushGo]; split <;> simp [outVars, ih]
+  | project items i _ => simp only [tryPushGo]; split <;> simp [outVars]
+  | ret d items i _ => simp only [tryPushGo]; split <;> simp [outVars]
   | expand s i ih => simp only [tryPushGo]; split <;> simp [outVars, ih]
   | join ty cs l r ihl ihr =>
     simp only [tryPushGo]
@@ -583,7 +581,7 @@ theorem tryPushGo_sound (env : Env) (pred : Expr) (hl : pred.local = true) :
       obtain ⟨hc, hi⟩ := h
       have hty : leftPushTypes ty = true := by
         simp only [pushesLeft, Bool.and_eq_true] at hu
-        exact hu.2
+        exact hu.2.2
       simp only [eval, ihl hi, cols_tryPushGo]
       have hrows : ∀ a ∈ eval env l, ∀ b ∈ perLeft env ty cs (cols r) (eval env r) a,
           keep env pred b = keep env pred a := by
@@ -625,7 +623,7 @@ theorem tryPushGo_sound (env : Env) (pred : Expr) (hl : pred.local = true) :
         obtain ⟨hc, hi⟩ := h
         have hty : rightPushTypes ty = true := by
           simp only [pushesRight, Bool.and_eq_true] at hu
-          exact hu.2
+          exact hu.2.2
         simp only [eval, ihr hi, cols_tryPushGo]
         have hm : ∀ a ∈ eval env l,
             matchRows env cs a ((eval env r).filter (keep env pred)) =
@@ -714,50 +712,7 @@ theorem pushFilters_perm (env : Env) (p : Plan) (h : wfPush p = true) :
     (eval env (pushFilters p)).Perm (eval env p) := by
   rw [pushFilters_sound env p h]
 
-/-! ## a plan-wide sufficient condition: exact scoping where the guards rely on it -/
-
-theorem noOver_tryPushGo (pred : Expr) (p : Plan) : noOver (tryPushGo pred p) = noOver p := by
-  simp only [noOver, outVars_tryPushGo, cols_tryPushGo]
-
-theorem noUnder_tryPushGo (pred : Expr) (p : Plan) : noUnder (tryPushGo pred p) = noUnder p := by
-  simp only [noUnder, outVars_tryPushGo, cols_tryPushGo]
-
-theorem noOver_pushFilters (p : Plan) : noOver (pushFilters p) = noOver p := by
-  simp only [noOver, outVars_pushFilters, cols_pushFilters]
-
-theorem noUnder_pushFilters (p : Plan) : noUnder (pushFilters p) = noUnder p := by
-  simp only [noUnder, outVars_pushFilters, cols_pushFilters]
-
-theorem wfScope_tryPushGo (pred : Expr) : ∀ p : Plan, wfScope (tryPushGo pred p) = wfScope p := by
-  intro p
-  induction p with
-  | project items i ih => simp only [tryPushGo]; split <;> simp [wfScope, ih]
-  | ret d items i ih => simp only [tryPushGo]; split <;> simp [wfScope, ih]
-  | expand s i ih => simp only [tryPushGo]; split <;> simp [wfScope, ih, noOver_tryPushGo]
-  | join ty cs l r ihl ihr =>
-    simp only [tryPushGo]
-    split
-    · simp [wfScope, ihl, noOver_tryPushGo, noUnder_tryPushGo]
-    · split <;> simp [wfScope, ihr]
-  | _ => simp [tryPushGo, wfScope]
-
-theorem wfScope_tryPush (pred : Expr) (p : Plan) : wfScope (tryPush pred p) = wfScope p := by
-  unfold tryPush
-  split
-  · rfl
-  · exact wfScope_tryPushGo pred p
-
-theorem wfScope_pushFilters : ∀ p : Plan, wfScope (pushFilters p) = wfScope p := by
-  intro p
-  induction p with
-  | filter pred i ih => simp only [pushFilters, wfScope_tryPush, ih, wfScope]
-  | expand s i ih => simp only [pushFilters, wfScope, ih, noOver_pushFilters]
-  | join ty cs l r ihl ihr =>
-    simp only [pushFilters, wfScope, ihl, ihr, noOver_pushFilters, noUnder_pushFilters]
-  | scan v lb => rfl
-  | scanIn v lb i ih => rfl
-  | other n f c => rfl
-  | _ => simp_all [pushFilters, wfScope]
+/-! ## `collect_output_variables` never over-reports -/
 
 theorem handedOn_sub_names : ∀ (items : List Item) (v : String), v ∈ handedOn items →
     v ∈ items.map itemName := by
@@ -784,98 +739,120 @@ theorem handedOn_sub_names : ∀ (items : List Item) (v : String), v ∈ handedO
         simp only [handedOn] at h
         exact List.mem_cons_of_mem _ (ih v h)
 
-/-- **`collect_output_variables` no longer over-reports** (after cc52572), except at an `Aggregate`
-with a computed grouping expression, which `wfScope` excludes: every reported variable is a
-column. Proved for all plans, no bound. -/
-theorem noOver_of_wfScope : ∀ q : Plan, wfScope q = true → noOver q = true := by
+theorem bareVars_sub_names : ∀ (gb : List Expr) (v : String), v ∈ bareVars gb →
+    v ∈ gb.map (fun e => itemName (e, none)) := by
+  intro gb
+  induction gb with
+  | nil => intro v h; simp [bareVars] at h
+  | cons e rest ih =>
+    intro v h
+    cases e with
+    | var x =>
+      simp only [bareVars, List.mem_cons] at h
+      rcases h with h | h
+      · subst h; simp [itemName]
+      · exact List.mem_cons_of_mem _ (ih v h)
+    | _ =>
+      simp only [bareVars] at h
+      exact List.mem_cons_of_mem _ (ih v h)
+
+/-- **Every variable `collect_output_variables` reports is a column** — for every plan, with no
+hypothesis (it took three repairs: chained scans, projections, aggregates). This is what makes the
+`Expand` guard and the left-input join guard of `try_push_filter_into` sufficient. -/
+theorem noOver_all : ∀ q : Plan, ∀ v ∈ outVars q, v ∈ cols q := by
   intro q
-  have mem : ∀ (q : Plan), noOver q = true ↔ ∀ v ∈ outVars q, v ∈ cols q := by
-    intro q
-    simp [noOver, List.all_eq_true]
   induction q with
-  | scan v lb => intro _; simp [noOver, outVars, cols]
+  | scan v lb => intro x hx; simpa [outVars, cols] using hx
   | scanIn v lb i ih =>
-    intro h
-    simp only [wfScope] at h
-    have := (mem i).mp (ih h)
-    apply (mem _).mpr
     intro x hx
     simp only [outVars, List.mem_cons] at hx
     simp only [cols, List.mem_append, List.mem_singleton]
     rcases hx with hx | hx
     · exact Or.inr hx
-    · exact Or.inl (this x hx)
+    · exact Or.inl (ih x hx)
   | expand s i ih =>
-    intro h
-    simp only [wfScope] at h
-    have := (mem i).mp (ih h)
-    apply (mem _).mpr
     intro x hx
     simp only [outVars, List.mem_cons, List.mem_append] at hx
     simp only [cols, expandCols, List.mem_append, List.mem_singleton]
     rcases hx with hx | hx | hx
     · exact Or.inr (Or.inl (Or.inr hx))
     · exact Or.inr (Or.inl (Or.inl hx))
-    · exact Or.inl (this x hx)
-  | filter pr i ih => intro h; simp only [wfScope] at h; simpa [noOver, outVars, cols] using ih h
-  | limit n i ih => intro h; simp only [wfScope] at h; simpa [noOver, outVars, cols] using ih h
-  | skip n i ih => intro h; simp only [wfScope] at h; simpa [noOver, outVars, cols] using ih h
-  | sort k i ih => intro h; simp only [wfScope] at h; simpa [noOver, outVars, cols] using ih h
-  | distinct c i ih => intro h; simp only [wfScope] at h; simpa [noOver, outVars, cols] using ih h
-  | project items i _ =>
-    intro _
-    apply (mem _).mpr
-    intro x hx
-    simp only [outVars] at hx
-    simp only [cols]
-    exact handedOn_sub_names items x hx
-  | ret d items i _ =>
-    intro _
-    apply (mem _).mpr
-    intro x hx
-    simp only [outVars] at hx
-    simp only [cols]
-    exact handedOn_sub_names items x hx
+    · exact Or.inl (ih x hx)
+  | filter pr i ih => intro x hx; exact ih x hx
+  | limit n i ih => intro x hx; exact ih x hx
+  | skip n i ih => intro x hx; exact ih x hx
+  | sort k i ih => intro x hx; exact ih x hx
+  | distinct c i ih => intro x hx; exact ih x hx
+  | project items i _ => intro x hx; exact handedOn_sub_names items x hx
+  | ret d items i _ => intro x hx; exact handedOn_sub_names items x hx
   | join ty cs l r ihl ihr =>
-    intro h
-    simp only [wfScope, Bool.and_eq_true] at h
-    have hl := (mem l).mp (ihl h.1.2)
-    have hr := (mem r).mp (ihr h.2)
-    apply (mem _).mpr
     intro x hx
     cases ty <;> simp only [outVars, List.mem_append] at hx <;> simp only [cols, List.mem_append]
-    case semi => exact hl x hx
-    case anti => exact hl x hx
+    case semi => exact ihl x hx
+    case anti => exact ihl x hx
     all_goals
       rcases hx with hx | hx
-      · exact Or.inl (hl x hx)
-      · exact Or.inr (hr x hx)
+      · exact Or.inl (ihl x hx)
+      · exact Or.inr (ihr x hx)
   | agg gb aggs hv i _ =>
-    intro h
-    simp only [wfScope, Bool.and_eq_true] at h
-    apply (mem _).mpr
     intro x hx
     simp only [outVars, List.mem_append] at hx
     simp only [cols, List.mem_append]
     rcases hx with hx | hx
-    · have := List.all_eq_true.mp h.1 x hx
-      simpa using this
+    · exact Or.inl (bareVars_sub_names gb x hx)
     · right
       simp only [aggAliases, List.mem_filterMap] at hx
       obtain ⟨a, ha, hal⟩ := hx
       simp only [List.mem_map]
       exact ⟨a, ha, by simp [aggName, hal]⟩
-  | other n f c => intro _; simp [noOver, outVars]
+  | other n f c => intro x hx; simp [outVars] at hx
 
-/-- a clean projection list that `passes_through` a variable hands it through in the semantics -/
-theorem passThrough_of_clean {items : List Item} {below : List String} {v : String}
-    (hc : itemsClean items = true) (hp : passesThrough items v = true) :
+/-! ## a plan-wide sufficient condition -/
+
+theorem noUnder_tryPushGo (pred : Expr) (p : Plan) : noUnder (tryPushGo pred p) = noUnder p := by
+  simp only [noUnder, outVars_tryPushGo, cols_tryPushGo]
+
+theorem noUnder_pushFilters (p : Plan) : noUnder (pushFilters p) = noUnder p := by
+  simp only [noUnder, outVars_pushFilters, cols_pushFilters]
+
+theorem wfScope_tryPushGo (pred : Expr) : ∀ p : Plan, wfScope (tryPushGo pred p) = wfScope p := by
+  intro p
+  induction p with
+  | project items i ih => simp only [tryPushGo]; split <;> simp [wfScope, ih]
+  | ret d items i ih => simp only [tryPushGo]; split <;> simp [wfScope, ih]
+  | expand s i ih => simp only [tryPushGo]; split <;> simp [wfScope, ih]
+  | join ty cs l r ihl ihr =>
+    simp only [tryPushGo]
+    split
+    · simp [wfScope, ihl, noUnder_tryPushGo, cols_tryPushGo]
+    · split <;> simp [wfScope, ihr, cols_tryPushGo]
+  | _ => simp [tryPushGo, wfScope]
+
+theorem wfScope_tryPush (pred : Expr) (p : Plan) : wfScope (tryPush pred p) = wfScope p := by
+  unfold tryPush
+  split
+  · rfl
+  · exact wfScope_tryPushGo pred p
+
+theorem wfScope_pushFilters : ∀ p : Plan, wfScope (pushFilters p) = wfScope p := by
+  intro p
+  induction p with
+  | filter pred i ih => simp only [pushFilters, wfScope_tryPush, ih, wfScope]
+  | expand s i ih => simp only [pushFilters, wfScope, ih]
+  | join ty cs l r ihl ihr =>
+    simp only [pushFilters, wfScope, ihl, ihr, noUnder_pushFilters, cols_pushFilters]
+  | scan v lb => rfl
+  | scanIn v lb i ih => rfl
+  | other n f c => rfl
+  | _ => simp_all [pushFilters, wfScope]
+
+/-- a list without `*` that `passes_through` a variable hands it through in the semantics: every
+item named `v` is the bare variable `v` (aliases by `shadowed`, unaliased items by `unnamed`) -/
+theorem passThrough_of_noStar {items : List Item} {below : List String} {v : String}
+    (hstar : noStar items = true) (hp : passesThrough items v = true) :
     passThrough items below v = true := by
-  simp only [itemsClean, Bool.and_eq_true] at hc
-  obtain ⟨hstar, hclash⟩ := hc
   simp only [passesThrough, Bool.and_eq_true, Bool.or_eq_true, Bool.not_eq_true'] at hp
-  obtain ⟨hh, hsh⟩ := hp
-  -- no star item, so the variable is handed on by some item
+  obtain ⟨⟨hh, hsh⟩, hun⟩ := hp
   have hhanded : items.any (fun it => it.1 == .var v && (it.2 == none || it.2 == some v)) = true := by
     rcases hh with h | h
     · exact h
@@ -892,7 +869,6 @@ theorem passThrough_of_clean {items : List Item} {below : List String} {v : Stri
     have hname : itemName it = v := by
       have := List.find?_some hfind
       simpa using this
-    -- `it` is named `v`: by alias (then not shadowed), or unaliased
     obtain ⟨e, al⟩ := it
     cases al with
     | some a =>
@@ -904,19 +880,14 @@ theorem passThrough_of_clean {items : List Item} {below : List String} {v : Stri
       simp only [beq_self_eq_true, Bool.true_and, bne_iff_ne, ne_eq, Decidable.not_not] at this
       simpa using this
     | none =>
-      have hcl := List.all_eq_true.mp hclash (e, none) hmem
-      simp only [Option.isSome_none, Bool.false_or, Bool.or_eq_true, Bool.not_eq_true'] at hcl
-      rcases hcl with hcl | hcl
-      · rw [hname] at hcl; exact hcl
-      · exfalso
-        rw [hname] at hcl
-        simp only [List.any_eq_false] at hcl
-        simp only [List.any_eq_true] at hhanded
-        obtain ⟨jt, hjt, hj⟩ := hhanded
-        simp only [Bool.and_eq_true] at hj
-        have := hcl jt hjt
-        rw [hj.1] at this
-        exact absurd this (by simp)
+      simp only [List.any_eq_false] at hun
+      have hv := hun (e, none) hmem
+      cases e with
+      | var x =>
+        have : x = v := by simpa [itemName] using hname
+        subst this
+        simp
+      | _ => simp at hv
   · rename_i hfind
     exfalso
     simp only [List.any_eq_true] at hhanded
@@ -946,7 +917,7 @@ theorem pushOK_of_wfScope (pred : Expr) : ∀ p : Plan, wfScope p = true → pus
       refine ⟨?_, ih h.2⟩
       apply List.all_eq_true.mpr
       intro v hv
-      exact passThrough_of_clean h.1 (List.all_eq_true.mp hu v hv)
+      exact passThrough_of_noStar h.1 (List.all_eq_true.mp hu v hv)
     · rfl
   | ret d items i ih =>
     intro h
@@ -958,7 +929,7 @@ theorem pushOK_of_wfScope (pred : Expr) : ∀ p : Plan, wfScope p = true → pus
       refine ⟨?_, ih h.2⟩
       apply List.all_eq_true.mpr
       intro v hv
-      exact passThrough_of_clean h.1 (List.all_eq_true.mp hu v hv)
+      exact passThrough_of_noStar h.1 (List.all_eq_true.mp hu v hv)
     · rfl
   | expand s i ih =>
     intro h
@@ -971,16 +942,15 @@ theorem pushOK_of_wfScope (pred : Expr) : ∀ p : Plan, wfScope p = true → pus
       apply List.all_eq_true.mpr
       intro v hv
       have h1 := List.all_eq_true.mp hu v hv
-      have h2 := List.all_eq_true.mp (noOver_of_wfScope i h) v (by simpa using h1)
+      have h2 := noOver_all i v (by simpa using h1)
       simp only [Bool.or_eq_true, List.contains_eq_mem, decide_eq_true_eq, Bool.not_eq_true',
         decide_eq_false_iff_not]
-      exact Or.inl (by simpa using h2)
+      exact Or.inl h2
     · rfl
   | join ty cs l r ihl ihr =>
     intro h
     simp only [wfScope, Bool.and_eq_true] at h
-    obtain ⟨⟨hunder, hl⟩, hr⟩ := h
-    have hover := noOver_of_wfScope l hl
+    obtain ⟨⟨hside, hl⟩, hr⟩ := h
     simp only [pushOK]
     split
     · rename_i hu
@@ -990,10 +960,10 @@ theorem pushOK_of_wfScope (pred : Expr) : ∀ p : Plan, wfScope p = true → pus
       apply List.all_eq_true.mpr
       intro v hv
       have h1 := List.all_eq_true.mp hu.1.2 v hv
-      have h2 := List.all_eq_true.mp hover v (by simpa using h1)
+      have h2 := noOver_all l v (by simpa using h1)
       simp only [Bool.or_eq_true, List.contains_eq_mem, decide_eq_true_eq, Bool.not_eq_true',
         decide_eq_false_iff_not]
-      exact Or.inl (by simpa using h2)
+      exact Or.inl h2
     · split
       · rename_i hu
         simp only [Bool.and_eq_true]
@@ -1003,12 +973,19 @@ theorem pushOK_of_wfScope (pred : Expr) : ∀ p : Plan, wfScope p = true → pus
         intro v hv
         simp only [Bool.not_eq_true', List.contains_eq_mem, decide_eq_false_iff_not]
         intro hcl
-        have h2 := List.all_eq_true.mp hunder v hcl
-        have h3 : usesAny pred.vars (outVars l) = true := by
-          simp only [usesAny, List.any_eq_true]
-          exact ⟨v, hv, h2⟩
-        rw [hu.1.1.2] at h3
-        exact absurd h3 (by simp)
+        simp only [Bool.or_eq_true] at hside
+        rcases hside with hunder | hdis
+        · have h2 := List.all_eq_true.mp hunder v hcl
+          have h3 : usesAny pred.vars (outVars l) = true := by
+            simp only [usesAny, List.any_eq_true]
+            exact ⟨v, hv, h2⟩
+          rw [hu.1.1.2] at h3
+          exact absurd h3 (by simp)
+        · have h1 := List.all_eq_true.mp hu.1.2 v hv
+          have h2 := noOver_all r v (by simpa using h1)
+          have h3 := List.all_eq_true.mp hdis v hcl
+          simp only [Bool.not_eq_true', List.contains_eq_mem, decide_eq_false_iff_not] at h3
+          exact h3 h2
       · rfl
   | _ => intro _; rfl
 
@@ -1035,12 +1012,11 @@ theorem wfPush_of_wfScope : ∀ p : Plan, wfScope p = true → wfPush p = true :
   | sort k i ih => intro h; simp only [wfScope] at h; simp only [wfPush]; exact ih h
   | distinct c i ih => intro h; simp only [wfScope] at h; simp only [wfPush]; exact ih h
   | expand s i ih => intro h; simp only [wfScope] at h; simp only [wfPush]; exact ih h
-  | agg g a hv i ih => intro h; simp only [wfScope, Bool.and_eq_true] at h; simp only [wfPush]; exact ih h.2
+  | agg g a hv i ih => intro h; simp only [wfScope] at h; simp only [wfPush]; exact ih h
 
-/-- **C09, filter push-down on plans with exact scoping.** Wherever the variable analysis
-`collect_output_variables` is exact at the inputs of `Expand`s and the left inputs of joins, and
-no projection list has a `*` item or a generated column name that is also a variable it hands on,
-filter push-down as repaired never changes the answer. -/
+/-- **C09, filter push-down, plan-wide condition (final).** If no projection list has a `*` item
+and at every join either the left input has no unreported column or the two inputs share no column
+name, filter push-down never changes the answer: same row list, for every graph. -/
 theorem pushFilters_sound_of_wfScope (env : Env) (p : Plan) (h : wfScope p = true) :
     eval env (pushFilters p) = eval env p :=
   pushFilters_sound env p (wfPush_of_wfScope p h)
@@ -1114,50 +1090,42 @@ def wEnv : Env where
   vfn := fun _ _ => .null
   param := fun _ => .null
   subq := wSubq
-  otherRows := fun _ _ => []
+  otherRows := fun _ _ => [[("b", .node 0)]]
 
 def eqE (l r : Expr) : Expr := .bin "eq" l r
 
 def oneHop (src dst : String) : ExpandSpec :=
   { src := src, dst := dst, edge := none, dir := "out", ty := none, minHops := 1, maxHops := some 1, alias := none }
 
-/-! ### the residual hypothesis cannot be dropped: the repaired code still changes answers
+/-! ### the residual hypothesis cannot be dropped
 
-`collect_output_variables` is not the column list. One witness per way it differs. -/
+What is left after four repairs: a column that `collect_output_variables` does not report (the
+path-length column of a named variable-length path, the generated name of an unaliased computed
+item or aggregate) that has the same name as a variable bound on the other side of a join; and the
+`*` item. One witness each. -/
 
-/-- `MATCH (a)-[]->(b) WITH a MATCH (c)-[]->(b) WHERE b.k0 = 2 RETURN a.k9, b.k9, c.k9` (Cypher,
-accepted): the `Project` of the WITH drops `b`, but `collect_output_variables` reports everything
-bound below a `Project`, so "`b` is bound below the second `Expand`" holds for the guard and the
-predicate sinks under the `Expand` that binds the `b` it speaks about. Reproduced against the real
-engine (corpus/C09): 3 rows without filter push-down, none with it. -/
-def wRebind : Plan :=
-  .ret false [(.prop "a" "k9", none), (.prop "b" "k9", none), (.prop "c" "k9", none)]
-    (.filter (eqE (.prop "b" "k0") (.lit (.int 2)))
-      (.expand (oneHop "c" "b")
-        (.scanIn "c" none (.project [(.var "a", none)] (.expand (oneHop "a" "b") (.scan "a" none))))))
+/-- `MATCH p = (a)-[*1..2]->(b) MATCH (_path_length_p) WHERE _path_length_p.k0 = 2 RETURN a.k9, b.k9`
+(GQL, accepted): the left input has the column `_path_length_p` (the length of `p`) which is not
+reported, the right input binds a node of that name; the predicate is judged right-only and moved
+there, while above the join the name means the *first* column of that name in the model. The
+engine reads the *last* one, so on the engine this text gives the same rows and the mirrored text
+`MATCH (_path_length_p) MATCH p = (a)-[*1..2]->(b) WHERE _path_length_p.k0 = 2 …` does not
+(corpus graph: 9 rows without push-down, 4 with). -/
+def wJoinUnder : Plan :=
+  .filter (eqE (.prop "_path_length_p" "k0") (.lit (.int 2)))
+    (.join .cross []
+      (.expand { src := "a", dst := "b", edge := none, dir := "out", ty := none, minHops := 1,
+                 maxHops := some 2, alias := some "p" } (.scan "a" none))
+      (.scan "_path_length_p" none))
 
-theorem wRebind_witness :
-    (eval wEnv wRebind).length = 2 ∧ eval wEnv (pushFilters wRebind) = []
-      ∧ wfPush wRebind = false ∧ wfScope wRebind = false := by
-  decide
-
-/-- a computed item without alias gets the generated column name `expr`
-(`planner.rs::expression_to_string`); a variable of that name handed on by the same list passes
-`passes_through`, and above the projection the name means the computed column.
-`MATCH (expr) WITH expr.k0 + 0, expr WHERE expr.k0 = 1 RETURN expr.k9` is accepted; the engine
-resolves the duplicate name to the *last* column, so the rows differ for the mirrored list
-`WITH expr, expr.k0 + 0` (without push-down I20, with it I10;I10 on the corpus graph). -/
-def wNameClash : Plan :=
-  .filter (eqE (.prop "expr" "k0") (.lit (.int 1)))
-    (.project [(.bin "add" (.prop "expr" "k0") (.lit (.int 0)), none), (.var "expr", none)] (.scan "expr" none))
-
-theorem wNameClash_witness :
-    eval wEnv wNameClash = [] ∧ (eval wEnv (pushFilters wNameClash)).length = 2
-      ∧ wfPush wNameClash = false ∧ wfScope wNameClash = false := by
+theorem wJoinUnder_witness :
+    eval wEnv wJoinUnder = [] ∧ (eval wEnv (pushFilters wJoinUnder)).length = 3
+      ∧ wfPush wJoinUnder = false ∧ wfScope wJoinUnder = false := by
   decide
 
 /-- `passes_through` lets everything through a `*` item; the planner has no such item (the binder
-rejects `RETURN *`: "Undefined variable '*'"), in the model it is a column like any other -/
+rejects `RETURN *`: "Undefined variable '*'"), in the model it is a column like any other.
+Plan API only. -/
 def wStar : Plan :=
   .filter (eqE (.prop "a" "k0") (.lit (.int 1))) (.ret false [(.var "*", none)] (.scan "a" none))
 
@@ -1166,49 +1134,95 @@ theorem wStar_witness :
       ∧ wfPush wStar = false ∧ wfScope wStar = false := by
   decide
 
-/-- under-report in a join's left input (plan API only): a `Return` alias is a column but not an
-output variable, so a predicate on `b` is judged right-only -/
-def wJoinUnder : Plan :=
-  .filter (eqE (.prop "b" "k0") (.lit (.int 2)))
-    (.join .cross [] (.ret false [(.prop "a" "k9", some "b")] (.scan "a" none)) (.scan "b" none))
-
-theorem wJoinUnder_witness :
-    eval wEnv wJoinUnder = [] ∧ (eval wEnv (pushFilters wJoinUnder)).length = 3
-      ∧ wfPush wJoinUnder = false ∧ wfScope wJoinUnder = false := by
-  decide
-
-/-- over-report in a join's left input (plan API only): `b` is reported for the left side although
-its `Project` drops it, and not reported for the right side whose `Return` binds it by alias -/
-def wJoinOver : Plan :=
-  .filter (eqE (.prop "b" "k0") (.lit (.int 2)))
-    (.join .cross [] (.project [(.var "a", none)] (.expand (oneHop "a" "b") (.scan "a" none)))
-      (.ret false [(.var "c", some "b")] (.scan "c" none)))
-
-theorem wJoinOver_witness :
-    (eval wEnv wJoinOver).length = 2 ∧ eval wEnv (pushFilters wJoinOver) = []
-      ∧ wfPush wJoinOver = false ∧ wfScope wJoinOver = false := by
-  decide
-
-/-- **C09, filter push-down, unconditional statement — still refuted** (by `wRebind`, the plan of an
-accepted Cypher text) -/
+/-- **C09, filter push-down, unconditional statement — refuted in the model** (by `wJoinUnder`, the
+plan of an accepted GQL text; it rests on the model reading the first of two columns of one name) -/
 theorem pushFilters_sound_full_refuted :
     ¬ (∀ (env : Env) (p : Plan), eval env (pushFilters p) = eval env p) := by
   intro h
-  have h1 := h wEnv wRebind
-  have h2 := wRebind_witness
-  rw [h2.2.1] at h1
-  rw [← h1] at h2
+  have h1 := h wEnv wJoinUnder
+  have h2 := wJoinUnder_witness
+  rw [h2.1] at h1
+  rw [h1] at h2
   simp at h2
 
 /-- not even as multisets -/
 theorem pushFilters_perm_full_refuted :
     ¬ (∀ (env : Env) (p : Plan), (eval env (pushFilters p)).Perm (eval env p)) := by
   intro h
-  have h1 := (h wEnv wRebind).length_eq
-  have h2 := wRebind_witness
-  rw [h2.2.1] at h1
+  have h1 := (h wEnv wJoinUnder).length_eq
+  have h2 := wJoinUnder_witness
   rw [h2.1] at h1
+  rw [h2.2.1] at h1
   simp at h1
+
+/-! ### regression: the residual cases of the previous round (repaired in the working tree) -/
+
+/-- `MATCH (x)-[]->(a) RETURN x, a.k0, count(a) MATCH (x)-[]->(a) WHERE a.k0 = 2` (Cypher): an
+`Aggregate` used to report the variables of its grouping expressions; now only keys that are bare
+variables, so `a` is not "bound below" the second `Expand` and the predicate stays. -/
+def wAggOver : Plan :=
+  .filter (eqE (.prop "a" "k0") (.lit (.int 2)))
+    (.expand (oneHop "x" "a")
+      (.scanIn "x" none
+        (.agg [.var "x", .prop "a" "k0"]
+          [{ func := "countnn", distinct := false, expr := some (.var "a"), alias := none, pct := none }] none
+          (.expand (oneHop "x" "a") (.scan "x" none)))))
+
+theorem wAggOver_regression :
+    (eval wEnv wAggOver).length = 3 ∧ wfScope wAggOver = true ∧ wfPush wAggOver = true
+      ∧ eval wEnv (pushFilters wAggOver) = eval wEnv wAggOver := by
+  decide
+
+/-- `MATCH (expr) WITH expr.k0 + 0, expr WHERE expr.k0 = 1 RETURN expr.k9`: an unaliased computed
+item gets the generated column name `expr`; `passes_through` now refuses any list with such an item -/
+def wNameClash : Plan :=
+  .filter (eqE (.prop "expr" "k0") (.lit (.int 1)))
+    (.project [(.bin "add" (.prop "expr" "k0") (.lit (.int 0)), none), (.var "expr", none)] (.scan "expr" none))
+
+theorem wNameClash_regression :
+    eval wEnv wNameClash = [] ∧ wfScope wNameClash = true ∧ wfPush wNameClash = true
+      ∧ pushFilters wNameClash = wNameClash := by
+  decide
+
+/-- `MATCH (a) OPTIONAL MATCH (a)-[]->(b) MATCH (b)-[]->(c) WHERE b.k0 = 2 …` (GQL): a join side
+with an operator `collect_output_variables` does not know; `outputs_known` now keeps the filter
+above such a join -/
+def wUnknownSide : Plan :=
+  .filter (eqE (.prop "b" "k0") (.lit (.int 2)))
+    (.join .cross [] (.other "LeftJoin" "fp" ["b"]) (.scan "b" none))
+
+theorem wUnknownSide_regression :
+    eval wEnv wUnknownSide = [] ∧ wfPush wUnknownSide = true
+      ∧ pushFilters wUnknownSide = wUnknownSide := by
+  decide
+
+/-! ### regression: the over-report through `Project` / `Return` (repaired by cc52572) -/
+
+/-- `MATCH (a)-[]->(b) WITH a MATCH (c)-[]->(b) WHERE b.k0 = 2 RETURN a.k9, b.k9, c.k9` (Cypher):
+before cc52572 everything below a `Project` was reported, so the predicate sank under the `Expand`
+that binds the second `b` (3 rows without push-down, none with it); now `b` is not reported below
+that `Expand` and the predicate stays. -/
+def wRebind : Plan :=
+  .ret false [(.prop "a" "k9", none), (.prop "b" "k9", none), (.prop "c" "k9", none)]
+    (.filter (eqE (.prop "b" "k0") (.lit (.int 2)))
+      (.expand (oneHop "c" "b")
+        (.scanIn "c" none (.project [(.var "a", none)] (.expand (oneHop "a" "b") (.scan "a" none))))))
+
+theorem wRebind_regression :
+    (eval wEnv wRebind).length = 2 ∧ wfScope wRebind = true ∧ wfPush wRebind = true
+      ∧ eval wEnv (pushFilters wRebind) = eval wEnv wRebind := by
+  decide
+
+/-- the same over-report in a join's left input (plan API only) -/
+def wJoinOver : Plan :=
+  .filter (eqE (.prop "b" "k0") (.lit (.int 2)))
+    (.join .cross [] (.project [(.var "a", none)] (.expand (oneHop "a" "b") (.scan "a" none)))
+      (.ret false [(.var "c", some "b")] (.scan "c" none)))
+
+theorem wJoinOver_regression :
+    (eval wEnv wJoinOver).length = 2 ∧ wfPush wJoinOver = true
+      ∧ eval wEnv (pushFilters wJoinOver) = eval wEnv wJoinOver := by
+  decide
 
 /-! ### regression: the defects of the guards before the repair
 
